@@ -60,6 +60,8 @@ func c01Forge(j *orch.Job, r *orch.Result) error {
 			// an asset whose average is unavailable for a while after PIP-10, with conversions into it waiting:
 			// what the daemon keeps in memory between two blocks (rolling averages) then decides ledger entries
 			featAvgUnavailable(m, ts, &modelParams{Seed: p.Seed})
+			// more than 100 PEG holders with a tie across rank 100 (created by one transfer), some of them staking
+			featRank100Tie(m, ts, &modelParams{Seed: p.Seed})
 		}})
 	if err != nil {
 		return err
